@@ -23,6 +23,10 @@ for q, e in sorted(table.items()):
     if len(fs) != 1:
         print("MISSING", q, len(fs))
         continue
+    if "census" in e:
+        e["census"] = pins.census_of(ctx, fs[0])
+        print("     %s census: %s" % (q, e["census"]))
+        continue
     f = F.body_of(fs[0])
     rows, is_open, calls = pins.rows_of(ctx, f)
     e["rows"] = {k: sorted(v) for k, v in sorted(rows.items())}
